@@ -118,6 +118,19 @@ func c06WriteCorpus(r *core.Run, dir string) (map[string]string, error) {
 		files["fwd/"+name+"/z_later.go"] = b.String()
 		classes[c06Mod+"/fwd/"+name] = "generated-good"
 	}
+	// packages that share their NAME (not their path) and differ in FFI, imports and contents: whatever is
+	// remembered per package must be keyed by the path
+	same := map[string]string{
+		"same/a/util": "package util\n\nimport \"github.com/goose-lang/goose/machine/disk\"\n\nfunc ReadFirst() uint64 {\n\tb := disk.Read(0)\n\treturn uint64(len(b))\n}\n\nfunc Twice(x uint64) uint64 {\n\treturn x * 2\n}\n",
+		"same/b/util": "package util\n\nfunc Twice(x uint64) uint64 {\n\treturn x * 3\n}\n\nfunc Other(x uint64) uint64 {\n\treturn Twice(x) + 1\n}\n",
+		"same/c/util": "package util\n\nimport \"github.com/goose-lang/goose/machine/async_disk\"\n\nfunc Size(d async_disk.Disk) uint64 {\n\treturn d.Size()\n}\n\nfunc Twice(x uint64) uint64 {\n\treturn x * 4\n}\n",
+		"same/d/util": fmt.Sprintf("package util\n\nimport \"%s/lib/l2\"\n\ntype T struct {\n\tv uint64\n}\n\nfunc Twice(x uint64) uint64 {\n\treturn l2.F(x) * 5\n}\n", c06Mod),
+		"same/e/util": "package util\n\ntype T struct {\n\tw bool\n\tv uint64\n}\n\nfunc (t *T) Twice(x uint64) uint64 {\n\treturn x + t.v\n}\n" + c06BadFunc,
+	}
+	for rel, src := range same {
+		files[rel+"/util.go"] = src
+		classes[c06Mod+"/"+rel] = "same-name"
+	}
 	return classes, writeModule(dir, c06Mod, nil, files)
 }
 
